@@ -26,6 +26,14 @@ TRUSTED_BASE = [
     "strings are UTF-8 byte strings in the model; Python str comparison = byte order on UTF-8",
 ]
 
+SRC_TRUSTED = [
+    "source tie: tools/py2coq.py (fail-closed Python-ast to Gallina translator; its reading of evaluation order, "
+    "short-circuiting, truth values, comprehensions, mutation of function-local lists / dicts as assignment, "
+    "`X is not None` as a binding match) and coq/Model/PyRt.v (a Feature object = the tree value with its chain of "
+    "ancestors; built-ins); the type annotations of /repo are trusted; flamapy.core (Node / AST methods, simplify_formula, "
+    "propagate_negation, to_cnf) stays the hand model of Model/Ast.v",
+]
+
 PROPS = {
     "C03": dict(
         props="Props/C03.v",
